@@ -85,3 +85,26 @@ func VH_C19_GBN_Canon() {
 		vAssert(vMsgEq(m, m3), "re-serialised packet decodes to a different value")
 	}
 }
+
+// VH_C19_GBN_Large: DATA packet round trip with a payload of symbolic length
+// 0..65535 (contents: an uninterpreted stream compared at a symbolic index).
+func VH_C19_GBN_Large() {
+	l := vInt("plen")
+	vAssume(l >= 0 && l <= 65535)
+	p := vStream("p", l)
+	m := &PacketData{Seq: vU8("seq"), FinalChunk: vBool("final"), IsPing: vBool("ping"), Payload: p}
+	b, err := m.Serialize()
+	vAssert(err == nil && len(b) == l+4, "Serialize failed or produced a wrong length")
+	vReach("large-roundtrip")
+	m2, err := Deserialize(b)
+	vAssert(err == nil, "own serialisation does not deserialise")
+	if err != nil {
+		return
+	}
+	d, ok := m2.(*PacketData)
+	vAssert(ok && d.Seq == m.Seq && d.FinalChunk == m.FinalChunk && d.IsPing == m.IsPing && len(d.Payload) == l, "header fields or payload length changed in the round trip")
+	j := vInt("j")
+	if ok && j >= 0 && j < l && j < len(d.Payload) {
+		vAssert(d.Payload[j] == p[j], "payload bytes changed in the round trip")
+	}
+}
